@@ -368,7 +368,7 @@ pub fn check(c: &Case) -> CaseResult {
         .class(format!("elem{}", c.elem % 6)))
 }
 
-fn strategy() -> impl Strategy<Value = Case> {
+pub fn strategy() -> impl Strategy<Value = Case> {
     (0u8..9, 0u8..6, 0u8..40, prop::collection::vec(any::<u64>(), 1..6), any::<bool>()).prop_map(|(carrier, elem, n, vals, flag)| Case { carrier, elem, n, vals, flag })
 }
 
